@@ -20,6 +20,9 @@
 #include <tins/offline_packet_filter.h>
 #include <tins/data_link_type.h>
 #include <pcap.h>
+#include <tins/sniffer.h>
+#include <tins/packet_writer.h>
+#include <sys/mman.h>
 #include <tins/tins.h>
 #include <tins/tcp_ip/flow.h>
 #include <tins/tcp_ip/data_tracker.h>
@@ -118,6 +121,9 @@ namespace w11 {
 namespace w15 {
 #include "c15.cpp"
 }
+namespace w17 {
+#include "c17.cpp"
+}
 #undef PROP_ID
 #undef PROP_MAXLEN_QUICK
 #undef PROP_MAXLEN_THOROUGH
@@ -160,6 +166,7 @@ std::vector<Sub>& subs() {
         {"C05", w05::prop, w05::prop_setup, 400, nullptr, {}},
         {"C11", w11::prop, w11::prop_setup, 300, "corpus/C11", {}},
         {"C15", w15::prop, w15::prop_setup, 200, nullptr, {}},
+        {"C17", w17::prop, no_setup, 600, nullptr, {}},
     };
     return S;
 }
